@@ -173,6 +173,59 @@ def ctorsOk (raw : List Sexp) (S : Schema) : Bool :=
       | none => (acc.1, false))
     (raw.filterMap (fun x => match x with | .list (.atom "ctor" :: o :: _) => o.asNat? | _ => none), true)).2
 
+/-- writes THROUGH THE FIELD'S OWN LIVE CONTAINER in a history, expanded against the contents the model has at that
+moment: `(assignSelf f o)` is `o.f = o.f`; `(iadd f o x…)` is `o.f += [x…]` / `o.f |= {x}` - the in-place operator adds
+the elements through the hook and returns the container, which `__set__` then receives. The setter copies the value
+before it clears the container (F-C16-1/2 repaired), so both are the assignment of a new collection holding the
+current contents (inferred elements included: they become part of an assigned value). -/
+def expandHOp (S : Schema) (stp : State → Op → State) (σ : State) : Sexp → Option (List Op)
+  | .list [.atom "assignSelf", f, o] => do
+      let f ← f.asNat?
+      let o ← o.asNat?
+      pure [.assign f o (σ.st f o)]
+  | .list (.atom "iadd" :: f :: o :: xs) => do
+      let f ← f.asNat?
+      let o ← o.asNat?
+      let xs ← parseNats xs
+      let adds := xs.map fun t => Op.add f o t
+      let σ' := adds.foldl stp σ
+      pure (adds ++ [.assign f o (σ'.st f o)])
+  | x => parseHOp S x
+
+/-- the assignment takes an earlier ASSERTED element out of the field (F-C15-3: its relation stays, no retraction);
+an assigned collection that names the asserted elements again drops nothing -/
+def dropsAsserted (σ : State) : Op → Bool
+  | .assign f s xs => (σ.st f s).any fun t => !σ.inf.contains (f, s, t) && !xs.contains t
+  | _ => false
+
+/-- the history items with the operations they stand for (left to right, the model's state threaded through), and
+whether some assignment dropped an asserted element -/
+def expandH (S : Schema) (W : World) (raw : List Sexp) : Option (List (Sexp × List Op) × Bool) :=
+  let stp := step (schemaRules S W) S.kindOf (fuelFor S W)
+  (raw.foldl (fun (acc : Option (State × List (Sexp × List Op) × Bool)) x =>
+    match acc with
+    | none => none
+    | some (σ, out, dropped) =>
+      match expandHOp S stp σ x with
+      | none => none
+      | some ops =>
+        let r := ops.foldl (fun (a : State × Bool) op => (stp a.1 op, a.2 || dropsAsserted a.1 op)) (σ, dropped)
+        some (r.1, out ++ [(x, ops)], r.2)) (some (State.init, [], false))).map fun r => (r.2.1, r.2.2)
+
+/-- `ctorsOk` on expanded items -/
+def ctorsOkX (items : List (Sexp × List Op)) : Bool :=
+  (items.foldl (fun (acc : List Nat × Bool) x =>
+    match x.1 with
+    | .list (.atom "ctor" :: o :: _) => (match o.asNat? with | some o => (acc.1.filter (· != o), acc.2) | none => (acc.1, false))
+    | _ => (acc.1, acc.2 && (asserted x.2).all fun r => !acc.1.contains r.2.1 && !acc.1.contains r.2.2))
+    (items.filterMap (fun x => match x.1 with | .list (.atom "ctor" :: o :: _) => o.asNat? | _ => none), true)).2
+
+/-- the constructor context of every operation of the expanded items -/
+def halvesX (S : Schema) (items : List (Sexp × List Op)) : List (Option Half) :=
+  items.flatMap fun x => match x.1 with
+    | .list (.atom "ctor" :: _) => halvesOfHOp S x.1
+    | _ => x.2.map fun _ => none
+
 def run (s : Sexp) : String :=
   match s with
   | .list (.atom "hc" :: items) =>
@@ -181,23 +234,24 @@ def run (s : Sexp) : String :=
     let raw := (Sexp.field? items "ops").getD []
     match parseSchema items, parseWorld items with
     | some S, some W =>
-      match raw.mapM (parseHOp S) with
-      | some opss =>
-        let ops := opss.flatten
-        if !(inRange S W ops && ops.all (·.wellKinded S.kindOf) && ctorsOk raw S &&
+      match expandH S W raw with
+      | some (expanded, dropped) =>
+        let ops := expanded.flatMap (·.2)
+        if !(inRange S W ops && ops.all (·.wellKinded S.kindOf) && ctorsOkX expanded &&
              W.rt.all (fun r => match r with | some x => x < W.size | none => true))
         then "error=ill-formed-case" else
         let σ := runModel S W ops
         -- a re-assignment that drops an earlier ASSERTED element is the open finding F-C15-3 (no retraction), which
         -- is about C15: this family stays outside it
-        if σ.clob then "error=ill-formed-case" else
+        -- (an assignment that names the asserted elements of the field again drops nothing)
+        if dropped then "error=ill-formed-case" else
         let cl := closure (schemaRules S W) (fuelFor S W) (asserted ops)
         let spec := if cl.2 then showRels cl.1 ++ "|" ++ showFields S W [] (fun f o => targetsOf cl.1 f o) cl.1
                     else "spec-diverged"
         let m := showRels σ.g ++ "|" ++ showFields S W [] (fun f o => σ.st f o) σ.g
         -- F-C16-10: a constructor call of an eq-dataclass instance whose inference compares the half-built instance
         -- by value raises AttributeError (open in /repo while `halfBuiltOpen`)
-        let raised := (runModelH true S W (parseEqCls items) ((raw.flatMap (halvesOfHOp S)).zip ops)).2
+        let raised := (runModelH true S W (parseEqCls items) ((halvesX S expanded).zip ops)).2
         if raised && halfBuiltOpen then s!"model=exc:AttributeError\tspec={spec}\ttrig=F-C16-10\tmodel_fixed={m}"
         else s!"model={m}\tspec={spec}\ttrig=" ++ (if raised then "\tbefore_half_built_fix=exc:AttributeError" else "")
       | none => "error=bad-case"
